@@ -44,6 +44,112 @@ type tr struct {
 	inGo       bool
 	fnLockSites []lockSite // Lock/RLock call sites of the current unit
 	assumeHeld  string     // lock key the current unit is documented to be called with
+	acqAll      map[string]map[string]bool // lock mode: function -> mutexes it may take, directly or through static callees
+	fnID        map[string]int             // lock mode: id of every function with a non-empty acqAll
+}
+
+// staticCallee: "pkgname.Recv.Func" / "pkgname.Func" of a statically resolved call into this module ("" otherwise:
+// interface methods, function values and callbacks are not followed)
+func staticCallee(info *types.Info, call *ast.CallExpr) string {
+	var obj types.Object
+	switch f := call.Fun.(type) {
+	case *ast.Ident:
+		obj = info.Uses[f]
+	case *ast.SelectorExpr:
+		if s := info.Selections[f]; s != nil {
+			if s.Kind() != types.MethodVal {
+				return ""
+			}
+			obj = s.Obj()
+		} else {
+			obj = info.Uses[f.Sel]
+		}
+	}
+	fn, ok := obj.(*types.Func)
+	if !ok || fn.Pkg() == nil || !strings.HasPrefix(fn.Pkg().Path(), "github.com/pion/turn") {
+		return ""
+	}
+	name := fn.Pkg().Name() + "." + fn.Name()
+	if sig, ok := fn.Type().(*types.Signature); ok && sig.Recv() != nil {
+		rt := sig.Recv().Type()
+		if _, isIface := rt.Underlying().(*types.Interface); isIface {
+			return ""
+		}
+		r := rt.String()
+		r = r[strings.LastIndex(r, ".")+1:]
+		name = fn.Pkg().Name() + "." + r + "." + fn.Name()
+	}
+	return name
+}
+
+// lockSummaries: for every function declaration, the mutexes (write and read lock of one mutex count as the same
+// mutex) it may take itself or through statically resolved calls into this module; function literals are their
+// own units and are not followed
+func lockSummaries(pkgs []*packages.Package) map[string]map[string]bool {
+	direct := map[string]map[string]bool{}
+	callees := map[string]map[string]bool{}
+	for _, p := range pkgs {
+		for _, f := range p.Syntax {
+			if strings.HasSuffix(p.Fset.Position(f.Pos()).Filename, "_test.go") {
+				continue
+			}
+			for _, d := range f.Decls {
+				fd, ok := d.(*ast.FuncDecl)
+				if !ok || fd.Body == nil {
+					continue
+				}
+				name := p.Name + "." + fd.Name.Name
+				if fd.Recv != nil && len(fd.Recv.List) > 0 {
+					name = p.Name + "." + strings.TrimPrefix(types.ExprString(fd.Recv.List[0].Type), "*") + "." + fd.Name.Name
+				}
+				direct[name], callees[name] = map[string]bool{}, map[string]bool{}
+				ast.Inspect(fd.Body, func(n ast.Node) bool {
+					switch x := n.(type) {
+					case *ast.FuncLit:
+						return false
+					case *ast.CallExpr:
+						if se, ok := x.Fun.(*ast.SelectorExpr); ok {
+							if s := p.TypesInfo.Selections[se]; s != nil {
+								if fn, ok := s.Obj().(*types.Func); ok && fn.Pkg() != nil && fn.Pkg().Path() == "sync" && (fn.Name() == "Lock" || fn.Name() == "RLock") {
+									if inner, ok := se.X.(*ast.SelectorExpr); ok {
+										if s2 := p.TypesInfo.Selections[inner]; s2 != nil {
+											direct[name][strings.TrimPrefix(s2.Recv().String()+"."+s2.Obj().Name(), "*")] = true
+										}
+									}
+									return true
+								}
+							}
+						}
+						if c := staticCallee(p.TypesInfo, x); c != "" {
+							callees[name][c] = true
+						}
+					}
+					return true
+				})
+			}
+		}
+	}
+	all := map[string]map[string]bool{}
+	for f, d := range direct {
+		all[f] = map[string]bool{}
+		for m := range d {
+			all[f][m] = true
+		}
+	}
+	for changed := true; changed; {
+		changed = false
+		for f, cs := range callees {
+			for c := range cs {
+				for m := range all[c] {
+					if !all[f][m] {
+						all[f][m] = true
+						changed = true
+					}
+				}
+			}
+		}
+	}
+	return all
 }
 
 type lockSite struct {
@@ -318,6 +424,11 @@ func (t *tr) expr(e ast.Node) string {
 				parts = append(parts, fmt.Sprintf("(.%s %d)", k, id))
 				return false
 			} else if !t.effects {
+				if c := staticCallee(t.pkg.TypesInfo, x); c != "" {
+					if id, ok := t.fnID[c]; ok {
+						parts = append(parts, fmt.Sprintf("(.call %d)", id))
+					}
+				}
 				if se, ok := x.Fun.(*ast.SelectorExpr); ok {
 					if sel := t.pkg.TypesInfo.Selections[se]; sel != nil {
 						if fn, ok := sel.Obj().(*types.Func); ok && fn.Pkg() != nil {
@@ -551,6 +662,20 @@ func load(repo string) []*packages.Package {
 
 func translate(pkgs []*packages.Package, effects bool) *tr {
 	t := &tr{locks: map[string]int{}, calls: map[string]int{}, lastAssign: map[string]string{}, effects: effects}
+	if !effects {
+		t.acqAll = lockSummaries(pkgs)
+		var names []string
+		for f, ms := range t.acqAll {
+			if len(ms) > 0 {
+				names = append(names, f)
+			}
+		}
+		sort.Strings(names)
+		t.fnID = map[string]int{}
+		for i, f := range names {
+			t.fnID[f] = i
+		}
+	}
 	for _, p := range pkgs {
 		t.pkg = p
 		for _, f := range p.Syntax {
@@ -742,7 +867,48 @@ func main() {
 	tl := translate(pkgs, false)
 	emitUnits(filepath.Join(*out, "Locks.lean"), "Locks", tl, func(u *unit) bool {
 		return strings.Contains(u.body, ".acq") || strings.Contains(u.body, ".rel") || strings.Contains(u.body, ".deferRel") || strings.Contains(u.body, ".need")
-	}, nil)
+	}, func(w *strings.Builder) {
+		// mutex of every lock id (the write and the read lock of one mutex are the same mutex)
+		mutexIdx := map[string]int{}
+		var keys []kv
+		for k, v := range tl.locks {
+			keys = append(keys, kv{k, v})
+		}
+		sort.Slice(keys, func(i, j int) bool { return keys[i].v < keys[j].v })
+		var mo []string
+		for _, l := range keys {
+			base := strings.TrimSuffix(l.k, "#R")
+			if _, ok := mutexIdx[base]; !ok {
+				mutexIdx[base] = len(mutexIdx)
+			}
+			mo = append(mo, fmt.Sprintf("(%d, %d)", l.v, mutexIdx[base]))
+		}
+		fmt.Fprintf(w, "def mutexOf : List (Nat × Nat) := [%s]\n", strings.Join(mo, ", "))
+		// which mutexes a call to function id may take (transitively, statically resolved callees only)
+		var names []string
+		for f := range tl.fnID {
+			names = append(names, f)
+		}
+		sort.Strings(names)
+		var ac []string
+		for _, f := range names {
+			var ms []int
+			for m := range tl.acqAll[f] {
+				if _, ok := mutexIdx[m]; !ok {
+					mutexIdx[m] = len(mutexIdx)
+				}
+				ms = append(ms, mutexIdx[m])
+			}
+			sort.Ints(ms)
+			var ss []string
+			for _, m := range ms {
+				ss = append(ss, fmt.Sprint(m))
+			}
+			fmt.Fprintf(w, "-- fn %d = %s\n", tl.fnID[f], f)
+			ac = append(ac, fmt.Sprintf("(%d, [%s])", tl.fnID[f], strings.Join(ss, ", ")))
+		}
+		fmt.Fprintf(w, "def acquires : List (Nat × List Nat) := [%s]\n", strings.Join(ac, ",\n  "))
+	})
 	// effect skeletons of the request handlers
 	te := translate(pkgs, true)
 	emitUnits(filepath.Join(*out, "Eff.lean"), "Eff", te, func(u *unit) bool {
